@@ -140,6 +140,16 @@ static void load_externals (void) {
   MIR_load_external (ctx, "ext_i16", ext_i16);
   MIR_load_external (ctx, "ext_f1", ext_f1);
   MIR_load_external (ctx, "ext_d1", ext_d1);
+  /* (wave 7) the same C function imported through prototypes with NARROW result types: the function returns the full
+     64-bit hash in rax, the bits above the prototype's result type are garbage the caller has to drop (the ABI leaves
+     them undefined) */
+  MIR_load_external (ctx, "ext_ri8", ext_i64);
+  MIR_load_external (ctx, "ext_ru8", ext_i64);
+  MIR_load_external (ctx, "ext_ri16", ext_i64);
+  MIR_load_external (ctx, "ext_ru16", ext_i64);
+  MIR_load_external (ctx, "ext_ri32", ext_i64);
+  MIR_load_external (ctx, "ext_ru32", ext_i64);
+  MIR_load_external (ctx, "ext_ru64", ext_i64);
 }
 
 static void MIR_NO_RETURN prog_err_func (MIR_error_type_t t, const char *fmt, ...) {
@@ -354,6 +364,62 @@ static uint64_t mem_hash (void) {
   return h;
 }
 
+/* (wave 7) entries with TWO results, signature "r2:<t1>:<t2>" (i64:a0, i64:a1): what C sees as a structure of two
+   eightbytes returned in rax/rdx/xmm0/xmm1 according to the classes in order.  Printed: integers narrowed to their
+   type, doubles and floats as their bits. */
+#define R2S(n, A, B) \
+  typedef struct { \
+    A a; \
+    B b; \
+  } n
+R2S (r2_ii, int64_t, int64_t); R2S (r2_id, int64_t, double); R2S (r2_if, int64_t, float); R2S (r2_di, double, int64_t);
+R2S (r2_dd, double, double); R2S (r2_df, double, float); R2S (r2_fi, float, int64_t); R2S (r2_fd, float, double);
+static char r2_class (const char *t) { return strcmp (t, "d") == 0 ? 'd' : strcmp (t, "f") == 0 ? 'f' : 'i'; }
+static void r2_set (MIR_val_t *v, char c, const void *p) {
+  if (c == 'i') memcpy (&v->i, p, 8);
+  else if (c == 'd') memcpy (&v->d, p, 8);
+  else memcpy (&v->f, p, 4);
+}
+static void r2_print (const char *t, MIR_val_t v) {
+  int64_t x = v.i;
+  if (strcmp (t, "d") == 0) memcpy (&x, &v.d, 8);
+  else if (strcmp (t, "f") == 0) { uint32_t b; memcpy (&b, &v.f, 4); x = b; }
+  else if (strcmp (t, "i32") == 0) x = (int32_t) x;
+  else if (strcmp (t, "u32") == 0) x = (uint32_t) x;
+  else if (strcmp (t, "i16") == 0) x = (int16_t) x;
+  else if (strcmp (t, "u16") == 0) x = (uint16_t) x;
+  else if (strcmp (t, "i8") == 0) x = (int8_t) x;
+  else if (strcmp (t, "u8") == 0) x = (uint8_t) x;
+  printf (" %" PRId64, x);
+}
+static int call_entry_r2 (int i, const char *sig, int64_t a0, int64_t a1, int via_interp) {
+  char buf[64], *t1, *t2, *save;
+  MIR_val_t v[2], res[2];
+  snprintf (buf, sizeof (buf), "%s", sig + 3);
+  t1 = strtok_r (buf, ":", &save);
+  t2 = strtok_r (NULL, ":", &save);
+  if (t1 == NULL || t2 == NULL) return 0;
+  char c1 = r2_class (t1), c2 = r2_class (t2);
+  memset (res, 0, sizeof (res));
+  if (via_interp) {
+    v[0].i = a0; v[1].i = a1;
+    MIR_interp_arr (ctx, p_funcs[i], res, 2, v);
+  } else {
+    void *fp = p_addr0[i];
+#define R2C(n, x, y) \
+  if (c1 == x && c2 == y) { \
+    n s = ((n (*) (int64_t, int64_t)) fp) (a0, a1); \
+    r2_set (&res[0], x, &s.a); \
+    r2_set (&res[1], y, &s.b); \
+  } else
+    R2C (r2_ii, 'i', 'i') R2C (r2_id, 'i', 'd') R2C (r2_if, 'i', 'f') R2C (r2_di, 'd', 'i') R2C (r2_dd, 'd', 'd')
+    R2C (r2_df, 'd', 'f') R2C (r2_fi, 'f', 'i') R2C (r2_fd, 'f', 'd') return 0;
+  }
+  r2_print (t1, res[0]);
+  r2_print (t2, res[1]);
+  return 1;
+}
+
 /* Call entry function i with signature sig and the given textual args.
    via_interp: use MIR_interp_arr instead of the function's public address.
    The public address used is the one recorded at load time (it must stay valid). */
@@ -419,6 +485,7 @@ static void call_entry (int i, const char *sig, char **av, int ac, int via_inter
     } else
       res[0].d = ((double (*) (double)) fp) (d[0]);
     printf (" %a", res[0].d);
+  } else if (strncmp (sig, "r2:", 3) == 0 && ac >= 2 && call_entry_r2 (i, sig, a[0], a[1], via_interp)) {
   } else
     printf (" BADSIG");
 }
